@@ -31,7 +31,9 @@ ASSUMPTIONS = [
 MIN_NONTRIVIAL = {'quick': 8000, 'thorough': 200000}
 REQUIRED_MONITORS = ['boundary:find_sec', 'boundary:PLSSDesc',
                      'boundary:Tract.lots', 'contract:unpack_sections',
-                     'contract:unpack_lots']
+                     'contract:unpack_lots', 'boundary:PLSSDesc:colon-required',
+                     'boundary:PLSSDesc:segment',
+                     'boundary:PLSSDesc:list-ends-text']
 EXHAUSTIVE_SUBSPACES = {
     'thorough': ["every (a, b), a != b, 1..99 as a single section range",
                  "every (a, b), a != b, 1..150 as a single lot range"],
@@ -181,6 +183,35 @@ def check_sec(items, txt, ctx, rep, pytrs):
                           f"descending range present={desc} but "
                           f"non-sequential warning present={ns} "
                           f"(w_flags {d.w_flags})", dedup=str(desc))
+        # With its colon, under sec_colon_required: the colon is there, so
+        # the mode changes nothing.
+        third = len(txt) % 3 == 0
+        if third:
+            ctx.hit('boundary:PLSSDesc:colon-required')
+        dr = pytrs.PLSSDesc(full, config='sec_colon_required') if third else d
+        if [t.sec for t in dr.tracts] != e:
+            ctx.violation('tract-sections', case,
+                          f"PLSSDesc({full!r}, config='sec_colon_required') "
+                          f"sections {[t.sec for t in dr.tracts]}, expected "
+                          f"{e}", dedup='plss-required')
+            return
+        # The list behind its block (Twp/Rge - desc - Sec), read chunk by
+        # chunk as well.
+        if third:
+            ctx.hit('boundary:PLSSDesc:segment')
+        for full5, lead in ((f"T154N-R97W NE/4 of {txt}", []),
+                            (f"T155N-R98W NE/4 of Sec 1, T154N-R97W NE/4 of "
+                             f"{txt}", ['155n98w01'])) if third else ():
+            for cfg5 in ('', 'segment'):
+                d5 = pytrs.PLSSDesc(full5, config=cfg5 or None)
+                if [t.trs for t in d5.tracts] != \
+                        lead + [f"154n97w{x}" for x in e]:
+                    ctx.violation(
+                        'tract-sections-TR_desc_S', case,
+                        f"PLSSDesc({full5!r}, config={cfg5!r}) gives "
+                        f"{[t.trs for t in d5.tracts][:8]}, expected sections "
+                        f"{e} of 154n97w", dedup=f"trdescs|{cfg5}|{len(lead)}")
+                    return
         # Without a colon, under sec_colon_cautious (second pass).
         full3 = f"T154N-R97W {txt} NE/4"
         if not txt.rstrip().endswith(':'):
@@ -196,10 +227,11 @@ def check_sec(items, txt, ctx, rep, pytrs):
                     f"{d3.w_flags}", dedup=f"{got4 != e}")
         # The list ends the description (whole sections, nothing said
         # about them), alone and as the last block of two.
-        ctx.hit('boundary:PLSSDesc:list-ends-text')
+        if len(txt) % 3 == 1:
+            ctx.hit('boundary:PLSSDesc:list-ends-text')
         for full4, lead in ((f"T154N-R97W {txt}", []),
                             (f"T155N-R98W Sec 1: NE/4, T154N-R97W {txt}",
-                             ['155n98w01'])):
+                             ['155n98w01'])) if len(txt) % 3 == 1 else ():
             d4 = pytrs.PLSSDesc(full4)
             got5 = [t.trs for t in d4.tracts]
             if got5 != lead + [f"154n97w{x}" for x in e] or \
